@@ -345,6 +345,14 @@ def predict(case, B, index_of, label=None):
         for a in case['anns']:
             e.warn[a] = 'U'
         e.fatal = 'U'
+        for n, o in parsed:
+            # parameters named by the annotations may change in unspecified ways as well
+            refs = [array_opts(o).get('length')] if n == 'array' and well_formed(n, o) else \
+                (o[:1] if n in ('closure', 'destroy') else [])
+            for r in refs:
+                if r in F.names:
+                    e.others.setdefault(r, {}).update({k: U for k in (
+                        'direction', 'caller-allocates', 'transfer-ownership', 'scope', 'nullable', 'allow-none')})
         return e
     ba = B['attrs']
     if B['type'] is not None and B['type'][0] == 'array' and F.cat not in G.CONTAINER_CATS:
@@ -543,12 +551,10 @@ def predict(case, B, index_of, label=None):
             if o and well_formed('closure', o):
                 # "(closure) parameters and their corresponding user data parameters" are nullable
                 e.others.setdefault(o[0], {}).update({'nullable': U, 'allow-none': U})
-        if 'scope' in byname:
+        if 'scope' in byname and val['scope'] != 'M':
             v = val['scope']
             if v == 'V' and not destroy_in_effect:
                 e.attrs['scope'] = M(byname['scope'][0])
-            elif v == 'M':
-                pass        # unchanged
             else:
                 e.attrs['scope'] = U
         elif destroy_in_effect and e.attrs['scope'] is not U and 'destroy' in byname and val['destroy'] == 'V':
